@@ -76,6 +76,27 @@ def lint_program(rng):
     return texts, names
 
 
+def cycle_program(rng):
+    """one struct per file: a containment graph with at least one cycle, types that lead into it and finite types it leads out to, fields in random order"""
+    n = rng.choice([3, 3, 4])
+    while True:
+        edges = {(a, b) for a in range(n) for b in range(n) if rng.random() < 0.35}
+        # some node reaches itself?
+        reach = {a: {b for (x, b) in edges if x == a} for a in range(n)}
+        for _ in range(n):
+            for a in range(n):
+                for b in list(reach[a]):
+                    reach[a] |= reach[b]
+        if any(a in reach[a] for a in range(n)):
+            break
+    texts = []
+    for a in range(n):
+        fields = ["t%d: %s" % (b, rng.choice(["T%d", "T%d", "Sequence<T%d>", "T%d?"]) % b) for b in range(n) if (a, b) in edges] + ["leaf: Leaf%d" % a, "n: int32"]
+        rng.shuffle(fields)
+        texts.append("module Cyc\nstruct T%d { %s }\nstruct Leaf%d { i: int32 }\n" % (a, ", ".join(fields), a))
+    return texts
+
+
 def file_tables(mo):
     """decoded request -> ({path: file sexp text}, sources in order, references in order)"""
     from ..front_common import parse_sexp
@@ -104,6 +125,9 @@ def run(ck):
             texts, names = lint_program(rng)
             progs.append((texts, "lints", None, names))
             continue
+        if r < 0.48:
+            progs.append((cycle_program(rng), "cycles", None))
+            continue
         g = slicegen.Gen(random.Random(rng.randrange(1 << 60)), nfiles=rng.choice([2, 3, 3, 4]), depth=2, foreign_attrs=False)
         prog = g.program()
         fam = "valid"
@@ -119,7 +143,11 @@ def run(ck):
             mline = c04.Enc(prog).line()
         except (KeyError, ValueError):
             mline = None
-        progs.append((slicegen.render(prog), fam, mline))
+        texts = slicegen.render(prog)
+        if rng.random() < 0.25:
+            # a file that declares a module and nothing else (with attributes, or with its definitions compiled out): it is still a file of the program
+            texts.insert(rng.randrange(len(texts) + 1), rng.choice(["module Only%d\n", "[[allow(All)]]\nmodule Only%d\n", "module Only%d\n#if NEVER\nstruct Gone {}\n#endif\n", "[x::m] module M\n// %d\n"]) % i)
+        progs.append((texts, fam, mline))
     # runs: the baseline twice (fresh processes), every permutation of up to 4 files (sampled beyond), source/reference assignments
     lines, index = [], []
     for pi, pr in enumerate(progs):
@@ -140,7 +168,7 @@ def run(ck):
             lines.append(dc.run_line(False, ["--diagnostic-format", "json"], [("gen-ok-0", None, None)], files))
             index.append((pi, vi, perm, roles))
     o = dc.run_all(lines, chunk=12)
-    ck.stream("orders", description="multi-file programs (valid; with one injected rule violation; with a deprecated definition used elsewhere; several files of one module using deprecated definitions and broken links at module scope and inside definitions with file-level and element-level allow attributes, base names repeated across directories; definitions sharing a scoped name across files; a definition sharing its scoped "
+    ck.stream("orders", description="multi-file programs (valid; with one injected rule violation; with a deprecated definition used elsewhere; one struct per file forming containment cycles with tails leading in and finite types leading out; files that declare only a module; several files of one module using deprecated definitions and broken links at module scope and inside definitions with file-level and element-level allow attributes, base names repeated across directories; definitions sharing a scoped name across files; a definition sharing its scoped "
               "name with a module declared in another file, several such collisions and redefinitions at once; re-opened modules; preprocessor symbols defined or undefined in one file and tested in another) run through the real binary with a capturing generator: the same command line four times in fresh processes, every permutation of up to 4 files, "
               "and source/reference re-assignments. Compared: stderr and generator request byte for byte between the two identical runs; acceptance (exit status) across all variants and against the rule model's verdict; "
               "for accepted programs every file's decoded request content and the multiset of warnings across all variants.")
